@@ -93,13 +93,15 @@ def new_sim(seed, cfg, **kw):
 
 
 def do_pack(fs, root, gdf, parts, npartitions, p, tempdir, compression, overwrite,
-            retry_args=None, tag="in"):
+            retry_args=None, tag="in", compute=True):
     """One real pack_partitions_to_parquet call; returns (returned records, npartitions)."""
     ddf = make_ddf(gdf, parts, tag)
     out = ddf.pack_partitions_to_parquet(
         os.path.join(root, "ds"), filesystem=fs, npartitions=npartitions, p=p,
         compression=compression, tempdir_format=tempdir_format(root, tempdir),
         overwrite=overwrite, _retry_args=retry_args)
+    if not compute:
+        return None, out.npartitions
     res = out.compute()
     return res, out.npartitions
 
